@@ -71,6 +71,86 @@ class SymList:
         raise Unsupported("method %s on a symbolic-length list" % name)
 
 
+class SpecList:
+    """Dafny's  lead ++ seq(count, q => make(q)) ++ tail :  a list of symbolic length whose middle part is GIVEN BY A SPEC
+    FUNCTION of the index, preceded by a concrete list `lead` and followed by the concrete elements appended since.
+    Everything about it is quantifier-free: reading element k evaluates make(k); `equals_spec(cnt)` says that the whole
+    list is  lead ++ seq(cnt, make)  (the appended elements match the spec at their positions, via match(x, q))."""
+
+    def __init__(self, name, count, make, match, lead=None, params=None):
+        self.name = name
+        self.count = count
+        self.make = make
+        self.match = match
+        self.lead = list(lead or [])
+        self.tail = []
+        self.params = dict(params or {})
+        self.cleared = False
+        self.sorted = False
+        self.on_sort = None
+        self.arrival = None      # index map of the order BEFORE list.sort ran (harness ghost), if modelled
+
+    @property
+    def total_len(self):
+        return len(self.lead) + self.count + len(self.tail)
+
+    def with_count(self, count):
+        """same spec, other length, nothing appended (loop havoc: the invariant pins the count)"""
+        r = SpecList(self.name, count, self.make, self.match, self.lead, self.params)
+        r.sorted, r.on_sort, r.arrival = self.sorted, self.on_sort, self.arrival
+        return r
+
+    def equals_spec(self, cnt):
+        r = core.cmp_num("==", self.count + len(self.tail), cnt)
+        for j, x in enumerate(self.tail):
+            r = core.band(r, self.match(x, self.count + j))
+        return r
+
+    def pyvc_havoc(self, name):
+        raise Unsupported("loop mutates spec list %s: give the loop spec a havoc rule" % self.name)
+
+    def pyvc_len(self, I):
+        return self.total_len
+
+    def pyvc_truth(self, I):
+        return core.cmp_num("!=", self.total_len, 0)
+
+    def pyvc_getitem(self, I, k):
+        if isinstance(k, slice):
+            raise Unsupported("slice of a spec list")
+        from .models import _norm_index
+        if I is not None:
+            k = _norm_index(I, k, self.total_len, "list index")
+        nl = len(self.lead)
+        E = core.CUR
+        if nl and (isinstance(k, int) and k < nl or (is_sym(k) and E.fork(T(k) < nl))):
+            return self.lead[k if isinstance(k, int) else E.concretize(k, what="index into the concrete head of a spec list")]
+        q = k - nl
+        if self.tail and E.fork(T(q) >= T(self.count)):
+            j = q - self.count
+            return self.tail[j if isinstance(j, int) else E.concretize(j, what="index into the appended tail of a spec list")]
+        if self.arrival is not None and not self.sorted:
+            q = self.arrival(q)
+        return self.make(q)
+
+    def pyvc_getattr(self, I, name):
+        from .interp import Builtin
+        if name == "append":
+            return Builtin("list.append", lambda I, x: self.tail.append(x))
+        if name == "sort":
+            def srt(I, key=None, reverse=False):
+                if self.on_sort is None:
+                    raise Unsupported("list.sort on spec list %s without a sort contract" % self.name)
+                self.on_sort(I, self, key, reverse)
+                self.sorted = True
+            return Builtin("list.sort", srt)
+        if name == "clear":
+            def clr(I):
+                self.lead, self.tail, self.count, self.cleared = [], [], 0, True
+            return Builtin("list.clear", clr)
+        raise Unsupported("method %s on a spec list" % name)
+
+
 def from_list(xs, name, fields, project, inject=None):
     """abstract a concrete Python list of values"""
     s = SymList(name, fields, 0, None, project, inject)
